@@ -1,8 +1,9 @@
 ------------------------------ MODULE MC_Arith ------------------------------
 (***************************************************************************)
 (* Definitional identities of BigNum / Arith, checked exhaustively by TLC  *)
-(* on small universes (guards against a wrong specification).  Four parts, *)
-(* one configuration each:                                                 *)
+(* on small universes (guards against a wrong specification).  Four parts  *)
+(* (variable `part`); `ints` has its own configuration, the others run     *)
+(* together.  N = 0 selects the reduced universes of the quick tier.       *)
 (*   ints   (LimbDigits = 1) BigNum against TLC's integers on -N..N        *)
 (*   laws   (LimbDigits = 4) ring / order laws on a boundary universe of   *)
 (*          Bigs up to 2^256, wrapping against checked                     *)
@@ -15,15 +16,16 @@ EXTENDS Arith, TLC
 
 CONSTANT N
 
-VARIABLES x, y, z
-vars == <<x, y, z>>
+VARIABLES part, x, y, z
+vars == <<part, x, y, z>>
 Stutter == UNCHANGED vars
 
 (* --------------------------------- ints --------------------------------- *)
-IntsInit == x \in -N..N /\ y \in -N..N /\ z = 0
+IntsInit == part = "ints" /\ x \in -N..N /\ y \in -N..N /\ z = 0
 ISign(a) == IF a < 0 THEN -1 ELSE IF a > 0 THEN 1 ELSE 0
 IRoundDiv(a, m) == ISign(a) * ((2 * IAbs(a) + m) \div (2 * m))     \* half away from zero
 IntsAgree ==
+  part = "ints" =>
   LET a == FromInt(x)
       b == FromInt(y)
   IN /\ IsBig(a) /\ ToInt(a) = x
@@ -40,6 +42,11 @@ IntsAgree ==
           /\ ToInt(RoundDivPow10(a, k)) = IRoundDiv(x, 10 ^ k)
           /\ IsBig(TruncDivPow10(a, k)) /\ IsBig(RoundDivPow10(a, k))
           /\ DivisibleByPow10(a, k) = (x % (10 ^ k) = 0)
+     /\ \A k \in {1, 2, 3, 7} :
+          /\ ToInt(FloorDivSmall(a, k)) = x \div k          \* TLA+ \div is floor division
+          /\ ToInt(TruncDivSmall(a, k)) = ITruncDiv(x, k)
+          /\ IsBig(FloorDivSmall(a, k))
+     /\ \A k \in 0..3 : ToInt(FloorDivPow10(a, k)) = x \div (10 ^ k) /\ IsBig(FloorDivPow10(a, k))
      /\ (y # 0 =>
           /\ IsTruncDiv(a, b, FromInt(ITruncDiv(x, y)), FromInt(ITruncRem(x, y)))
           /\ \A dq \in {-1, 1} :            \* no other pair passes: the quotient is determined
@@ -51,13 +58,16 @@ IntsAgree ==
      /\ (x >= 0 /\ x <= 24 => ToInt(Pow2(x)) = 2 ^ x)
 
 (* --------------------------------- laws --------------------------------- *)
-Mags == { Zero, One, FromInt(2), FromInt(9999), FromInt(10000), FromInt(10001), FromInt(99999999),
-          FromInt(100000000), P2_31, P2_32, Sub(P2_63, One), P2_63, P2_64, P2_127, Sub(P2_128, One),
-          Sub(Pow10(38), One), Pow10(38), P2_255, Sub(P2_256, One), Pow10(76) }
+Mags == IF N = 0
+        THEN { Zero, One, FromInt(9999), FromInt(10000), Sub(P2_63, One), Sub(Pow10(38), One), P2_255 }
+        ELSE { Zero, One, FromInt(2), FromInt(9999), FromInt(10000), FromInt(10001), FromInt(99999999),
+               FromInt(100000000), P2_31, P2_32, Sub(P2_63, One), P2_63, P2_64, P2_127, Sub(P2_128, One),
+               Sub(Pow10(38), One), Pow10(38), P2_255, Sub(P2_256, One), Pow10(76) }
 Univ == Mags \cup {Neg(m) : m \in Mags}
-LawsInit == x \in Univ /\ y \in Univ /\ z \in Univ
+LawsInit == part = "laws" /\ x \in Univ /\ y \in Univ /\ z \in Univ
 Widths == {<<32, 1>>, <<32, 0>>, <<64, 1>>, <<64, 0>>, <<128, 1>>, <<256, 1>>}
 Laws ==
+  part = "laws" =>
   /\ IsBig(Add(x, y)) /\ IsBig(Sub(x, y)) /\ IsBig(Mul(x, y))
   /\ Sub(Add(x, y), y) = x
   /\ Add(Sub(x, y), y) = x
@@ -94,7 +104,8 @@ Laws ==
                   /\ BRowErr(op, w, sg, x, y) = (r # e))
 
 (* ---------------------------------- w8 ---------------------------------- *)
-W8Init == x \in -128..255 /\ y \in -128..255 /\ z = 0
+W8Xs == IF N = 0 THEN {-128, -127, -1, 0, 1, 3, 100, 127, 128, 255} ELSE -128..255
+W8Init == part = "w8" /\ x \in W8Xs /\ y \in -128..255 /\ z = 0
 NatOps == {"add", "sub", "mul", "neg", "add_w", "sub_w", "mul_w", "neg_w", "div", "rem", "div_c",
            "rem_c", "div_w", "rem_w"}
 CheckedOf(op) == CASE op = "add_w" -> "add" [] op = "sub_w" -> "sub" [] op = "mul_w" -> "mul" [] op = "neg_w" -> "neg"
@@ -119,6 +130,7 @@ AgreeAt(w, sg, a, b) ==
           /\ (IVal(op, w, sg, a, b) - IExact(op, a, b)) % (2 ^ w) = 0
           /\ (~IRowErr(CheckedOf(op), w, sg, a, b) => IVal(op, w, sg, a, b) = IVal(CheckedOf(op), w, sg, a, b)))
 W8Agree ==
+  part = "w8" =>
   /\ (IIn(8, 1, x) /\ IIn(8, 1, y) => AgreeAt(8, 1, x, y))
   /\ (IIn(8, 0, x) /\ IIn(8, 0, y) => AgreeAt(8, 0, x, y))
   (* wrapping is a ring homomorphism Z -> Z/2^w (w = 4 synthetic, and 8)     *)
@@ -140,12 +152,13 @@ W8Agree ==
           /\ IRowErr("mul", 16, 0, a, b) = (a # 0 /\ b # 0 /\ a > 65535 \div b)
 
 (* -------------------------------- kleene -------------------------------- *)
-KleeneInit == x \in 0..2 /\ y \in 0..2 /\ z = 0
+KleeneInit == part = "kleene" /\ x \in 0..2 /\ y \in 0..2 /\ z = 0
 And2(a, b) == a * b
 Or2(a, b) == Max2(a, b)
 AndNot2(a, b) == a * (1 - b)
 Strict(f(_, _), a, b) == IF a = 2 \/ b = 2 THEN 2 ELSE f(a, b)
 Kleene ==
+  part = "kleene" =>
   /\ And3(x, y) = ByCompletion(And2, x, y)
   /\ Or3(x, y) = ByCompletion(Or2, x, y)
   /\ Not3(x) = (IF x = 2 THEN 2 ELSE 1 - x)
@@ -157,8 +170,7 @@ Kleene ==
   /\ AndNotN(x, y) = Strict(AndNot2, x, y)
   /\ (x # 2 /\ y # 2 => And3(x, y) = AndN(x, y) /\ Or3(x, y) = OrN(x, y))
 
-IntsSpec   == IntsInit   /\ [][Stutter]_vars
-LawsSpec   == LawsInit   /\ [][Stutter]_vars
-W8Spec     == W8Init     /\ [][Stutter]_vars
-KleeneSpec == KleeneInit /\ [][Stutter]_vars
+IntsSpec == IntsInit /\ [][Stutter]_vars
+BigInit == LawsInit \/ W8Init \/ KleeneInit
+BigSpec == BigInit /\ [][Stutter]_vars
 =============================================================================
